@@ -15,7 +15,8 @@
  *   Up <transport 0 sock|1 shm> <enforced max>       start the service, warm it up, take the baseline census
  *   Connect <p> rec <id> <size> <mms> <total> <seed> raw peer p: byte string = the request record with these
  *                                                    fields, cut or extended (seeded garbage) to <total> bytes
- *   Connect <p> rand <total> <seed>                  raw peer p: <total> bytes of seeded garbage
+ *   Connect <p> rand <total> <seed>                  raw peer p: <total> bytes of seeded garbage (the max_msg_size
+ *                                                    field reduced modulo 64 MiB + 1: domain restriction)
  *   Write <p> <n>                                    write the next n bytes of the string (n <= what is left)
  *   WriteClose <p> <n>                               the same, and the peer leaves before the server runs again
  *   HalfClose <p>                                    shutdown(SHUT_WR)
@@ -71,6 +72,7 @@ void *mmap(void *addr, size_t len, int prot, int flags, int fd, off_t off)
 #define RS ((int)sizeof(struct qb_ipc_connection_request))
 #define MAXPEER 16
 #define MAXBYTES 70000
+#define MAXMMS (64u << 20)
 
 struct us_control { int32_t sent; int32_t flow_control; };   /* lib/ipc_socket.c: struct ipc_us_control */
 
@@ -372,6 +374,7 @@ static void run_history(char **lines, int nlines)
 			memset(&rq, 0, sizeof(rq));
 			if (!strcmp(L.tok[2], "rec")) {
 				rq.hdr.id = (int32_t)vt_argi(&L, 3); rq.hdr.size = (int32_t)vt_argi(&L, 4); rq.max_msg_size = (uint32_t)vt_argi(&L, 5);
+				if (rq.max_msg_size > MAXMMS) rq.max_msg_size = MAXMMS;
 				P->total = (int)vt_argi(&L, 6); rnd_state = (unsigned)vt_argi(&L, 7);
 				for (int i = 0; i < MAXBYTES && i < P->total; i++) P->bytes[i] = rnd() & 0xff;
 				/* the record's padding bytes keep their garbage; the three fields are set */
@@ -381,6 +384,11 @@ static void run_history(char **lines, int nlines)
 			} else {
 				P->total = (int)vt_argi(&L, 3); rnd_state = (unsigned)vt_argi(&L, 4);
 				for (int i = 0; i < MAXBYTES && (i < P->total || i < RS); i++) P->bytes[i] = rnd() & 0xff;
+				/* domain restriction (DESIGN.md 4.0): a hostile max_msg_size is explored up to 64 MiB */
+				uint32_t m;
+				memcpy(&m, P->bytes + offsetof(struct qb_ipc_connection_request, max_msg_size), 4);
+				m %= MAXMMS + 1;
+				memcpy(P->bytes + offsetof(struct qb_ipc_connection_request, max_msg_size), &m, 4);
 			}
 			if (P->total > MAXBYTES) P->total = MAXBYTES;
 			memcpy(&rq, P->bytes, sizeof(rq));
